@@ -40,7 +40,11 @@ def w_layout(case):
     from fcp.encoding import make_encoder, PackedEncoderContext
 
     fcp = _schema(case["text"])
-    enc = make_encoder("packed", fcp, PackedEncoderContext().with_unroll_arrays(case["unroll"]))
+    ctx = PackedEncoderContext().with_unroll_arrays(case["unroll"])
+    enc = make_encoder("packed", fcp, ctx)
+    # a second encoder with the opposite option, its context derived from the first one's while that one stays in use: deriving
+    # a context, and whatever the sibling lays out in between, must not change what the first encoder computes
+    sibling = make_encoder("packed", fcp, ctx.with_unroll_arrays(not case["unroll"])) if case.get("sibling") else None
     outs = []
     held = []  # (index of the call, the list object generate() returned)
 
@@ -52,6 +56,11 @@ def w_layout(case):
 
     for ix in case["calls"]:
         impl = fcp.impls[ix]
+        if sibling is not None:
+            try:
+                sibling.generate(impl)
+            except (ValueError, KeyError):
+                pass
         try:
             vals = enc.generate(impl)
             outs.append(snap(vals))
@@ -182,7 +191,7 @@ def run(prop, tier, replay=None):
         # make sure some impl is laid out twice at different points of the history
         if len(calls) >= 3:
             calls[-1] = calls[0]
-        cases.append({"text": d.text(), "unroll": rng.random() < 0.6, "calls": calls})
+        cases.append({"text": d.text(), "unroll": rng.random() < 0.6, "calls": calls, "sibling": rng.random() < 0.4})
     ires = run_cases("harness.layout", "w_layout", cases, timeout_s=20)
     lcases = []
     idx = []
